@@ -202,6 +202,9 @@ Definition step (s : st) (e : ev) : option st :=
       | UNone | UCreated | UTerm => Some (set_u s u (with_pool r p))
       | UPopped => (* ABT_pool_push_thread of a unit obtained by a user-level pop re-associates it *)
           Some (set_u s u (with_pool r p))
+      | URunning => (* ABT_xstream_set_main_sched called by a ULT of that stream: the caller moves itself to the
+                       first pool of the new scheduler before it suspends (xstream_update_main_sched) *)
+          if Nat.eqb (migs r) 0 then Some (set_u s u (with_pool r p)) else None
       | _ => if Nat.eqb (migs r) 2 then
                match migt r with
                | Some t => if Nat.eqb t p then Some (set_u s u (with_mig (with_pool r p) (migt r) 3)) else None
